@@ -20,6 +20,16 @@ CLAIMED = {
          "Embedded paths (RouterInfo, LeaseSet, LeaseSet2, MetaLeaseSet) are checked for the prohibited pairs whose key sizes equal a permitted pair's. DecryptInnerData/CreateBlindedDestination paths are covered under C16 stubs only."),
  "C10": ("Exhaustive over the code space: one symbolic int code covers every value; each lookup is asserted equal to the specification table written independently in the harness. Layout of the 384-byte block for every accepted type pair with symbolic content.",
          "Lookups: GetSignatureSize, GetSigningKeySize, GetCryptoKeySize, GetKeySizes, signature.SignatureSize, offline_signature.*Size, the two size maps, KeyCertificate size methods."),
+ "C05": ("Bounded symbolic model checking over an idealised signature primitive: the library's verification stubs and the harness oracle evaluate one uninterpreted validity predicate V(alg,key,msg,sig); 'Verify succeeded' must imply V on the identity key over prefix||input bytes (and V of the offline block under the identity key). Counterexamples are realised with real Ed25519 keys and replayed natively.",
+         "Shapes as C01 (Ed25519, RedDSA, ECDSA-P256, DSA identities; transient types 7 and 1 in quick). The mathematics of the primitives is assumed; what is decided is which bytes reach the primitive and what happens to its answer."),
+ "C06": ("Bounded symbolic model checking with an ideal signing primitive (Sign returns fresh bytes sigma with V(pub(sk),msg,sigma)=true): constructor output verifies, and verifies again after Bytes -> Read*.",
+         "RouterInfo (0..1 addresses, T: 2; options 0..2 pairs), LeaseSet (0..2 leases), LeaseSet2 (flags symbolic, 1 key, 1 lease), EncryptedLeaseSet (with/without offline block, two key representations), CreateOfflineSignature. Ed25519 keys only (the only type the constructors sign with)."),
+ "C07": ("Bounded symbolic model checking with an ideal hash (equal inputs give equal digests; injectivity only where stated): Hash/IdentHash equal the hash of exactly the consumed identity bytes, addresses equal an independent bit-level base32/base64 of them, Equals/Equal iff serialisations are equal.",
+         "Identities with free type bytes (hash/address harness) or five pinned shapes per side (equality harness). SHA-256 itself is idealised."),
+ "C13": ("Bounded symbolic model checking through the real encoding/base32 and encoding/base64 code with the repo's encodings: encode == independent bit-level reference, decode(encode(x)) == x for all x up to 7 (T: 11/10) bytes; decoders on fully symbolic strings accept only the I2P alphabet and legal padding; size guards at limit-1, limit, limit+1.",
+         "Strings of 8 (base32) and 4 (T: 8) (base64) characters with CR/LF excluded by assumption; megabyte inputs of the limit harness reach a stubbed coder (only the guard is decided)."),
+ "C15": ("Bounded symbolic model checking through the real time package: header times for all 2^32 x 2^16 field values, lease end dates, NewLease2 range check over all instants, newest/oldest expiration membership and bounds, IsExpired with a symbolic clock; the x/÷-by-constant kernels are decided by cvc5 --solve-bv-as-int=iand with a z3 mirror session.",
+         "Newest/oldest on 1..2 leases (T: 4); clock = any instant 2001..2096 with at most one hour drift between calls; dates below 2^63."),
 }
 NA_REASON = "check under construction in this session; it will be claimed once its harnesses run clean on the unchanged tree"
 
